@@ -369,7 +369,7 @@ def install(R):
     R.no_raise_ext |= {"uuid.uuid4"}
     c = R.get(K + "write_to_disk")
     c.assumed = False
-    c.props = ["C10", "C11"]
+    c.props = ["C10", "C11", "C08"]      # C08: what progress counts under real names are complete files only
     c.notes = ""
     c.requires = [("real_name", "is_str_value(fname) and not IsTmp(fname)")]
     c.crash = [("crash.only_complete_files_under_real_names", "OldOrNewAtomically(fname, obj)")]
